@@ -34,6 +34,8 @@ func (c rateCase) text() string {
 		return fmt.Sprintf("%d/%s", c.N, c.Unit)
 	case "n/mu":
 		return fmt.Sprintf("%d/%d%s", c.N, c.M, c.Unit)
+	case "0n/mu":
+		return fmt.Sprintf("0%d/%d%s", c.N, c.M, c.Unit)
 	case "n/du":
 		return fmt.Sprintf("%d/%s", c.N, c.Dur)
 	case "inf":
